@@ -25,7 +25,7 @@ def g_op(o):
     if k == 'wpo': return '(OpWrite (MPong %s))' % gl(ws.unhx(p[1]))
     if k == 'wc': return '(OpWrite (MClose %s))' % (g_close(p[1], p[2]) if p[1] != '-' else 'None')
     if k == 'c': return '(OpClose %s)' % (g_close(p[1], p[2]) if p[1] != '-' else 'None')
-    if k == 'sb': return '(OpSetBuf %s %s)' % (p[1], 'u64_max' if p[2] == 'inf' else p[2])
+    if k in ('sb', 'sn'): return '(OpSetBuf %s %s)' % (p[1], 'u64_max' if p[2] == 'inf' else p[2])
     if k == 'wf':
         fl = p[1]
         mask = 'None' if p[3] == '-' else '(Some (%s))' % ','.join(str(x) for x in ws.unhx(p[3]))
